@@ -106,25 +106,41 @@ func (d *doublyConnectedEdgeList) assignFaces() {
 	}
 
 	// Populate inSet for faces that did not have edges from their respective
-	// input geometries.
+	// input geometries. Members of a GeometryCollection may overlap, so a face
+	// can be inside an input geometry even when all of its edges have the
+	// interior of a member on their other side (e.g. a hole in one member that
+	// is covered by another member). So rather than flood filling, count the
+	// polygons that each face is inside of: crossing an edge leaves the
+	// polygons bordering onto it from this side and enters the ones bordering
+	// onto it from the other side. The counts are relative to an arbitrary
+	// starting face. The unbounded face isn't inside any polygon, so it has
+	// the lowest count.
 	forEachOperand(func(operand operand) {
-		visited := make(map[*faceRecord]bool)
-		var dfs func(*faceRecord)
-		dfs = func(f *faceRecord) {
-			if visited[f] {
-				return
-			}
-			visited[f] = true
+		depth := make(map[*faceRecord]int)
+		lowest := 0
+		var stack []*faceRecord
+		if len(d.faces) > 0 {
+			depth[d.faces[0]] = 0
+			stack = append(stack, d.faces[0])
+		}
+		for len(stack) > 0 {
+			f := stack[len(stack)-1]
+			stack = stack[:len(stack)-1]
 			forEachEdgeInCycle(f.cycle, func(e *halfEdgeRecord) {
-				if !e.srcFace[operand] {
-					e.twin.incident.inSet[operand] = true
-					dfs(e.twin.incident)
+				adj := e.twin.incident
+				if _, ok := depth[adj]; ok {
+					return
 				}
+				depth[adj] = depth[f] - e.srcFaceCount[operand] + e.twin.srcFaceCount[operand]
+				if depth[adj] < lowest {
+					lowest = depth[adj]
+				}
+				stack = append(stack, adj)
 			})
 		}
 		for _, f := range d.faces {
-			if f.inSet[operand] {
-				dfs(f)
+			if depth[f] > lowest {
+				f.inSet[operand] = true
 			}
 		}
 	})
